@@ -30,6 +30,20 @@ def gen(tier, rnd):
         m = G.request(rnd); L += cases_for('reqw', m, rnd, tier)
         if i % 3 == 0:
             L += cases_for('req', G.mutate(rnd, m), rnd, tier)
+    # messages that fill most of the buffer limit (the limit is on the bytes received, wherever the cuts fall): sizes between half
+    # the limit and the limit, cuts on both sides of the half and near the end, small limits too
+    for (mx, size) in ([(4096, 3028), (4096, 4096), (1024, 700)] if tier == 'quick' else [(4096, 3028), (4096, 4096), (4096, 2050), (1024, 700), (1024, 1024), (8192, 8000), (300, 290)]):
+        body = bytes(97 + (i % 26) for i in range(size))
+        for k in range(size, 0, -1):
+            m = b'POST /big HTTP/1.1\r\nHost: h\r\nContent-Length: %d\r\n\r\n' % k + body[:k]
+            if len(m) <= size: break
+        n_ = len(m)
+        L.append('parse req %d %s -' % (mx, m.hex()))
+        for c in sorted(set([1, n_ // 4, n_ // 2 - 1, n_ // 2, n_ // 2 + 1, mx // 2 - 1, mx // 2, mx // 2 + 1, (n_ * 2) // 3, (n_ * 3) // 4, n_ - 100, n_ - 2, n_ - 1])):
+            if 0 < c < n_: L.append('parse req %d %s %d' % (mx, m.hex(), c))
+        for _ in range(3):
+            mc = G.multi_cuts(rnd, n_, rnd.choice([2, 3, 5]))
+            if mc: L.append('parse req %d %s %s' % (mx, m.hex(), ','.join(map(str, mc))))
     for i in range(n // 2):
         m = G.response(rnd); L += cases_for('respw', m, rnd, tier)
         if i % 3 == 0:
@@ -81,7 +95,7 @@ def classify(line, out):
     ncut = 0 if w[4] == '-' else len(w[4].split(','))
     return (w[1], w[3][:40], out.split(' | ')[0][-6:], min(ncut, 3), w[4][:6])
 
-RULE = ('requests/responses from a grammar (9 methods, query variants, registered/unknown/cookie headers in random capitalisation, duplicates, none/Content-Length/chunked bodies), '
+RULE = ('messages of half to all of the buffer limit (limits 300..8192) with cuts on both sides of half the limit; requests/responses from a grammar (9 methods, query variants, registered/unknown/cookie headers in random capitalisation, duplicates, none/Content-Length/chunked bodies), '
         'a stress list and one-mutation variants; for each: whole input, every single cut (sampled above 160 bytes in quick), byte-by-byte, seeded multi-cuts. '
         'non-trivial = distinct (kind, message prefix, final outcome, cut-count class, cut position)')
 ASSUME = ['a read never spans two messages (no pipelining: the client waits for the response)', 'typed header parsers as modelled in C16/C17/C18 (Date and float corner cases: unspecified)']
